@@ -487,6 +487,29 @@ func (fa *flowAn) isFresh(v ssa.Value, seen map[ssa.Value]bool) (bool, string) {
 					}
 				}
 			}
+			// moved out: the old value of a field of the receiver that is replaced, in the same
+			// block after the load, by a value made in this activation.  The receiver does not
+			// refer to it any more; that nothing else does is the storage-owned rule's business.
+			if fld, ok := x.X.(*ssa.FieldAddr); ok {
+				if _, isParam := fld.X.(*ssa.Parameter); isParam && x.Block() != nil {
+					after := false
+					for _, ins := range x.Block().Instrs {
+						if ins == ssa.Instruction(x) {
+							after = true
+							continue
+						}
+						st, ok := ins.(*ssa.Store)
+						if !after || !ok {
+							continue
+						}
+						if sf, ok := st.Addr.(*ssa.FieldAddr); ok && sf.X == fld.X && sf.Field == fld.Field {
+							if okNew, _ := fa.isFresh(st.Val, seen); okNew {
+								return true, ""
+							}
+						}
+					}
+				}
+			}
 			return false, "loaded from " + x.X.String() + " (" + x.X.Type().String() + ") at " + fa.pos(x.Pos())
 		}
 		return false, "unary " + x.String()
